@@ -271,8 +271,17 @@ func RunWorker(o WorkerOpts) *WorkerResult {
 	start := time.Now()
 	seen := map[string]*FoundViolation{}
 	perRule := map[string]int{}
+	safeOracle := func(p *Plan) (v *Verdict) {
+		defer func() {
+			if r := recover(); r != nil {
+				pj, _ := json.Marshal(p)
+				v = &Verdict{Infra: []string{fmt.Sprintf("oracle panicked: %v plan=%s", r, pj)}}
+			}
+		}()
+		return ck.Oracle(p)
+	}
 	handle := func(p *Plan, rs uint64) {
-		v := ck.Oracle(p)
+		v := safeOracle(p)
 		res.Evaluations++
 		res.Worlds += v.Runs
 		res.Steps += v.Steps
